@@ -507,6 +507,8 @@ fn process_tags(
 
     while !tags.is_empty() && remain.len() != tags.len() {
         let resolved_before = context.resolved_count();
+        // what the context looked like when the first element of this pass had failed
+        let mut first_failure: Option<u64> = None;
         for (idx, t) in &mut tags.iter_mut() {
             let idx = idx.clone();
             let el = if let Some(el) = t.get_element() {
@@ -551,8 +553,17 @@ fn process_tags(
                         }
                     }
                     remain.push((idx, t.clone()));
+                    first_failure.get_or_insert(context.generation());
                 }
             }
+        }
+        if first_failure == Some(context.generation()) {
+            // Nothing that any of the remaining elements could refer to has changed since
+            // the first of them failed (what completed earlier in the pass, they have all
+            // seen): attempting them again would repeat the same work with the same result.
+            // For a container that work is everything inside it, and so doubles per level
+            // of nesting.
+            return Err(SvgdxError::MultiError(element_errors));
         }
         if tags.len() == remain.len() {
             // No tag completed in this pass. Elements newly resolved inside a container
